@@ -91,6 +91,8 @@ impl FilesystemStoreState {
 	}
 
 	fn get_new_version_and_lock_ref(&self, dest_file_path: PathBuf) -> (Arc<RwLock<u64>>, u64) {
+		#[cfg(feature = "_verif_hooks")]
+		crate::verif::point("version-fetch", &dest_file_path, 0);
 		let version = self.next_version.fetch_add(1, Ordering::Relaxed);
 		if version == u64::MAX {
 			panic!("FilesystemStore version counter overflowed");
@@ -126,6 +128,13 @@ impl FilesystemStoreState {
 
 impl FilesystemStoreInner {
 	fn get_inner_lock_ref(&self, path: PathBuf) -> Arc<RwLock<u64>> {
+		#[cfg(feature = "_verif_hooks")]
+		let _verif_held = crate::verif::acquire(
+			"lock-outer",
+			"unlock-outer",
+			&path,
+			&self.locks as *const _ as usize,
+		);
 		let mut outer_lock = self.locks.lock().unwrap();
 		Arc::clone(&outer_lock.entry(path).or_default())
 	}
@@ -186,7 +195,13 @@ impl FilesystemStoreInner {
 		let mut buf = Vec::new();
 
 		self.execute_locked_read(dest_file_path.clone(), || {
+			#[cfg(feature = "_verif_hooks")]
+			let verif_path = dest_file_path.clone();
+			#[cfg(feature = "_verif_hooks")]
+			crate::verif::fallible("read-open", &verif_path)?;
 			let mut f = fs::File::open(dest_file_path)?;
+			#[cfg(feature = "_verif_hooks")]
+			crate::verif::fallible("read-data", &verif_path)?;
 			f.read_to_end(&mut buf)?;
 			Ok(())
 		})?;
@@ -198,6 +213,13 @@ impl FilesystemStoreInner {
 		&self, inner_lock_ref: Arc<RwLock<u64>>, dest_file_path: PathBuf, version: u64, callback: F,
 	) -> Result<(), lightning::io::Error> {
 		let res = {
+			#[cfg(feature = "_verif_hooks")]
+			let _verif_held = crate::verif::acquire(
+				"lock-write",
+				"unlock-write",
+				&dest_file_path,
+				Arc::as_ptr(&inner_lock_ref) as usize,
+			);
 			let mut last_written_version = inner_lock_ref.write().unwrap();
 
 			// Check if we already have a newer version written/removed. This is used in async contexts to realize eventual
@@ -224,6 +246,13 @@ impl FilesystemStoreInner {
 	) -> Result<(), lightning::io::Error> {
 		let inner_lock_ref = self.get_inner_lock_ref(dest_file_path.clone());
 		let res = {
+			#[cfg(feature = "_verif_hooks")]
+			let _verif_held = crate::verif::acquire(
+				"lock-read",
+				"unlock-read",
+				&dest_file_path,
+				Arc::as_ptr(&inner_lock_ref) as usize,
+			);
 			let _guard = inner_lock_ref.read().unwrap();
 			callback()
 		};
@@ -236,6 +265,13 @@ impl FilesystemStoreInner {
 		// to prevent leaking memory. The two arcs that are expected are the one in the map and the one held here in
 		// inner_lock_ref. The outer lock is obtained first, to avoid a new arc being cloned after we've already
 		// counted.
+		#[cfg(feature = "_verif_hooks")]
+		let _verif_held = crate::verif::acquire(
+			"lock-outer",
+			"unlock-outer",
+			&dest_file_path,
+			&self.locks as *const _ as usize,
+		);
 		let mut outer_lock = self.locks.lock().unwrap();
 
 		let strong_count = Arc::strong_count(&inner_lock_ref);
@@ -253,6 +289,8 @@ impl FilesystemStoreInner {
 		version: u64, preserve_mtime: bool,
 	) -> lightning::io::Result<()> {
 		let mtime = if preserve_mtime {
+			#[cfg(feature = "_verif_hooks")]
+			crate::verif::fallible("stat-dest", &dest_file_path)?;
 			match fs::metadata(&dest_file_path) {
 				Err(e) if e.kind() == ErrorKind::NotFound => None,
 				Err(e) => return Err(e.into()),
@@ -266,6 +304,8 @@ impl FilesystemStoreInner {
 				format!("Could not retrieve parent directory of {}.", dest_file_path.display());
 			std::io::Error::new(std::io::ErrorKind::InvalidInput, msg)
 		})?;
+		#[cfg(feature = "_verif_hooks")]
+		crate::verif::fallible("mkdir", &dest_file_path)?;
 		fs::create_dir_all(&parent_directory)?;
 
 		// Do a crazy dance with lots of fsync()s to be overly cautious here...
@@ -277,8 +317,12 @@ impl FilesystemStoreInner {
 		let tmp_file_ext = format!("{}.tmp", self.tmp_file_counter.fetch_add(1, Ordering::AcqRel));
 		tmp_file_path.set_extension(tmp_file_ext);
 
+		#[cfg(feature = "_verif_hooks")]
+		crate::verif::fallible("tmp-create", &dest_file_path)?;
 		let tmp_file_res = match fs::File::create(&tmp_file_path) {
 			Ok(mut tmp_file) => (|| -> lightning::io::Result<()> {
+				#[cfg(feature = "_verif_hooks")]
+				crate::verif::fallible("tmp-write", &dest_file_path)?;
 				tmp_file.write_all(&buf)?;
 
 				// If we need to preserve the original mtime (for updates), set it before fsync.
@@ -287,12 +331,16 @@ impl FilesystemStoreInner {
 					tmp_file.set_times(times)?;
 				}
 
+				#[cfg(feature = "_verif_hooks")]
+				crate::verif::fallible("tmp-fsync", &dest_file_path)?;
 				tmp_file.sync_all()?;
 				Ok(())
 			})(),
 			Err(e) => return Err(e.into()),
 		};
 		if let Err(e) = tmp_file_res {
+			#[cfg(feature = "_verif_hooks")]
+			crate::verif::point("tmp-unlink", &dest_file_path, 0);
 			let _ = fs::remove_file(&tmp_file_path);
 			return Err(e);
 		}
@@ -302,8 +350,12 @@ impl FilesystemStoreInner {
 			self.execute_locked_write(inner_lock_ref, dest_file_path.clone(), version, || {
 				#[cfg(not(target_os = "windows"))]
 				{
+					#[cfg(feature = "_verif_hooks")]
+					crate::verif::fallible("rename", &dest_file_path)?;
 					fs::rename(&tmp_file_path, &dest_file_path)?;
 					tmp_file_needs_cleanup = false;
+					#[cfg(feature = "_verif_hooks")]
+					crate::verif::fallible("dir-fsync", &dest_file_path)?;
 					let dir_file = fs::OpenOptions::new().read(true).open(&parent_directory)?;
 					dir_file.sync_all()?;
 					Ok(())
@@ -349,6 +401,8 @@ impl FilesystemStoreInner {
 				}
 			});
 		if tmp_file_needs_cleanup {
+			#[cfg(feature = "_verif_hooks")]
+			crate::verif::point("tmp-unlink", &dest_file_path, 0);
 			let _ = fs::remove_file(&tmp_file_path);
 		}
 		write_res
@@ -358,11 +412,15 @@ impl FilesystemStoreInner {
 		&self, inner_lock_ref: Arc<RwLock<u64>>, dest_file_path: PathBuf, lazy: bool, version: u64,
 	) -> lightning::io::Result<()> {
 		self.execute_locked_write(inner_lock_ref, dest_file_path.clone(), version, || {
+			#[cfg(feature = "_verif_hooks")]
+			crate::verif::fallible("stat-dest", &dest_file_path)?;
 			if !dest_file_path.is_file() {
 				return Ok(());
 			}
 
 			if lazy {
+				#[cfg(feature = "_verif_hooks")]
+				crate::verif::fallible("unlink", &dest_file_path)?;
 				// If we're lazy we just call remove and be done with it.
 				fs::remove_file(&dest_file_path)?;
 			} else {
@@ -370,6 +428,8 @@ impl FilesystemStoreInner {
 				// atomicity of this call.
 				#[cfg(not(target_os = "windows"))]
 				{
+					#[cfg(feature = "_verif_hooks")]
+					crate::verif::fallible("unlink", &dest_file_path)?;
 					fs::remove_file(&dest_file_path)?;
 
 					let parent_directory = dest_file_path.parent().ok_or_else(|| {
@@ -379,6 +439,8 @@ impl FilesystemStoreInner {
 						);
 						std::io::Error::new(std::io::ErrorKind::InvalidInput, msg)
 					})?;
+					#[cfg(feature = "_verif_hooks")]
+					crate::verif::fallible("dir-fsync", &dest_file_path)?;
 					let dir_file = fs::OpenOptions::new().read(true).open(parent_directory)?;
 					// The above call to `fs::remove_file` corresponds to POSIX `unlink`, whose changes
 					// to the inode might get cached (and hence possibly lost on crash), depending on
@@ -437,6 +499,8 @@ impl FilesystemStoreInner {
 	}
 
 	fn list(&self, prefixed_dest: PathBuf, is_v2: bool) -> lightning::io::Result<Vec<String>> {
+		#[cfg(feature = "_verif_hooks")]
+		crate::verif::fallible("list-exists", &prefixed_dest)?;
 		if !Path::new(&prefixed_dest).exists() {
 			return Ok(Vec::new());
 		}
@@ -445,8 +509,12 @@ impl FilesystemStoreInner {
 		let mut retries = if is_v2 { 0 } else { LIST_DIR_CONSISTENCY_RETRIES };
 
 		'retry_list: loop {
+			#[cfg(feature = "_verif_hooks")]
+			crate::verif::fallible("read-dir-open", &prefixed_dest)?;
 			keys = Vec::new();
 			'skip_entry: for entry in fs::read_dir(&prefixed_dest)? {
+				#[cfg(feature = "_verif_hooks")]
+				crate::verif::fallible("read-dir-step", &prefixed_dest)?;
 				let entry = entry?;
 				let p = entry.path();
 
@@ -866,5 +934,71 @@ pub(crate) fn get_key_from_dir_entry_path(
 			);
 			return Err(lightning::io::Error::new(lightning::io::ErrorKind::Other, msg));
 		},
+	}
+}
+
+/// Verification hook H7: a write or removal whose version has been taken (the synchronous half of
+/// the asynchronous API) but which has not been executed yet.
+#[cfg(feature = "_verif_hooks")]
+pub struct VerifTicket {
+	inner_lock_ref: Arc<RwLock<u64>>,
+	path: PathBuf,
+	version: u64,
+	use_empty_ns_dir: bool,
+}
+
+#[cfg(feature = "_verif_hooks")]
+impl VerifTicket {
+	/// The version assigned to this operation.
+	pub fn version(&self) -> u64 {
+		self.version
+	}
+}
+
+/// Verification hook H7: the two halves of `write_async` / `remove_async` without an executor.
+/// `verif_begin` is what these functions do before they return the future, `verif_finish_*` is the
+/// body they hand to `spawn_blocking`.
+#[cfg(feature = "_verif_hooks")]
+impl FilesystemStoreState {
+	pub(crate) fn verif_begin(
+		&self, primary_namespace: &str, secondary_namespace: &str, key: &str, operation: &str,
+		use_empty_ns_dir: bool,
+	) -> Result<VerifTicket, lightning::io::Error> {
+		let this = Arc::clone(&self.inner);
+		let path = this
+			.get_checked_dest_file_path(
+				primary_namespace,
+				secondary_namespace,
+				Some(key),
+				operation,
+				use_empty_ns_dir,
+			)
+			.map(|path| (self.get_new_version_and_lock_ref(path.clone()), path));
+		let ((inner_lock_ref, version), path) = match path {
+			Ok(res) => res,
+			Err(e) => return Err(e),
+		};
+		Ok(VerifTicket { inner_lock_ref, path, version, use_empty_ns_dir })
+	}
+
+	pub(crate) fn verif_finish_write(
+		&self, ticket: VerifTicket, buf: Vec<u8>,
+	) -> Result<(), lightning::io::Error> {
+		let this = Arc::clone(&self.inner);
+		let VerifTicket { inner_lock_ref, path, version, use_empty_ns_dir } = ticket;
+		this.write_version(inner_lock_ref, path, buf, version, use_empty_ns_dir)
+	}
+
+	pub(crate) fn verif_finish_remove(
+		&self, ticket: VerifTicket, lazy: bool,
+	) -> Result<(), lightning::io::Error> {
+		let this = Arc::clone(&self.inner);
+		let VerifTicket { inner_lock_ref, path, version, .. } = ticket;
+		this.remove_version(inner_lock_ref, path, lazy, version)
+	}
+
+	pub(crate) fn verif_state_size(&self) -> usize {
+		let outer_lock = self.inner.locks.lock().unwrap();
+		outer_lock.len()
 	}
 }
